@@ -5,7 +5,7 @@ UNITS = ["FactorNames = {}", "Powers = {}", "MaxFactors = 0", "Mags = {}", "Targ
          "HelperNames = {}", "Plan <- NoPlan"]
 BASE = dict(Systems="<- Sys_q", KTimes="<- KT_two", KConcs="<- KC_two", Wrongs="<- W_none", CPlans="<- Plans_two",
             TUnits='= {"s"}', KRegs="<- KRegs6", Outs="<- Outs_one", Modes='= {"inline", "named"}',
-            EqTemplates="= {}", EqWrongs="= {}", CallKinds="<- Calls_none", MaxCalls="= 0")
+            EqTemplates="= {}", EqWrongs="= {}", CallKinds="<- Calls_none", MaxCalls="= 0", Laws='= {"mass"}')
 INV = ["RegistryIndependent", "WrittenIsPhysical", "RefusedOnlyIfWrongDimension", "SolverHasNoMemory",
        "SolverRefusesExactlyWrongDimensions", "KTypeOK", "KEmit"]
 def cfg(name, **kw):
@@ -16,7 +16,12 @@ def cfg(name, **kw):
 cfg("accept", Systems="= {}", KTimes="<- KT_all", KConcs="<- KC_all", Wrongs="<- W_all", Modes='= {"accept"}',
     EqTemplates="<- Eq_all", EqWrongs="<- EW_all")
 cfg("refuse", Systems="<- Sys_q", KTimes="<- KT_two", KConcs="<- KC_all", Wrongs='= {"conc-", "time2"}')
-cfg("rates_q")
+cfg("rates_q", Modes='= {"inline", "named", "mixed"}')
+cfg("laws_q", Systems='= {"bi", "chain", "ter"}', KTimes='= {"min"}', KConcs='= {"mM"}', CPlans='= {2}', Laws='= {"arrhenius", "eyring", "alt"}',
+    Modes='= {"inline", "named", "subs"}', KRegs="<- KRegs6")
+cfg("laws_t", Systems="<- Sys_laws", KTimes="<- KT_two", KConcs="<- KC_two", CPlans="<- Plans_two", Laws='= {"arrhenius", "eyring", "alt"}',
+    Modes='= {"inline", "named", "subs", "mixed"}', KRegs="<- KRegs6")
+cfg("subs_t", Modes='= {"subs", "mixed"}')
 cfg("rates_t", Systems="<- Sys_all", KTimes="<- KT_all", KConcs="<- KC_all", CPlans="<- Plans_two", TUnits='= {"s"}',
     KRegs="<- KRegs6", Outs="<- Outs_one")
 cfg("regs_t", Systems='= {"bi", "chain"}', KTimes='= {"h"}', KConcs='= {"uM"}', CPlans='= {1}', KRegs="<- KRegs108", Outs="<- Outs_three",
